@@ -26,15 +26,16 @@
    inside a protocol is its BODY BYTES (the models are value based; no protocol rewrites the
    body of a message it owns): messages with equal bodies are interchangeable there.
 
-   NOT YET HERE: cooked REQ's close-drain part. *)
+   All sixteen models (req, rep, xreq, xrep, pub, sub, xsub, push, pull, surveyor, respondent,
+   xsurveyor, xrespondent, pair (K0 / K1 cooked / K1 raw), bus (cooked / raw)) are covered. *)
 From Coq Require Import List Arith NArith Bool.
 From NngV Require Import Gen.Consts Proto.Common Ledger.Ledger Ledger.LedgerProofs Ledger.LawTac Ledger.Views Ledger.LedgerThms
   Ledger.SizedFree Ledger.C03Lemmas.
 From NngV Require Proto.PushModel Proto.PullModel Proto.PubModel Proto.SubModel Proto.XsubModel Proto.PairModel
   Proto.PairGuard Proto.BusModel Proto.XReqModel Proto.XRepModel Proto.SurveyModel Proto.XSurveyModel Proto.XRespondModel
   Proto.PushProofs Proto.PubSubProofs Proto.PubSubProofs3 Proto.BusProofs Queue.LmqModel Queue.MsgqModel Msg.MsgModel IdMap.IdMapModel
-  Proto.RepModel Proto.RespondModel
-  Ledger.OwnPipeline Ledger.OwnPipelineClose Ledger.OwnPubSub Ledger.OwnPairBus Ledger.OwnSurvey Ledger.OwnXReqRep Ledger.OwnRepResp.
+  Proto.RepModel Proto.RespondModel Proto.ReqModel Proto.ReqProofs
+  Ledger.OwnReq Ledger.OwnPipeline Ledger.OwnPipelineClose Ledger.OwnPubSub Ledger.OwnPairBus Ledger.OwnSurvey Ledger.OwnXReqRep Ledger.OwnRepResp.
 Import ListNotations.
 
 (* ================= 1. the ledger itself ================= *)
@@ -167,6 +168,24 @@ Theorem xrep_ledger_balanced : forall mf,
   ledger_ok view_xrep (XRepModel.xrep_step mf) XRepModel.xrep_init OwnXReqRep.xrep_ok OwnXReqRep.xrep_close_script.
 Proof. exact xrep_ledger_ok. Qed.
 Print Assumptions xrep_ledger_balanced.
+
+(* cooked REQ, for the source with the repaired clone policy (req.c 7fbb191: clone / free / requeue keyed on
+   the value NNG_OPT_REQ_RESENDTIME had when the request was submitted; flag read from the source): every
+   history -- RESENDTIME changed at any point between request and reply included -- keeps the ledger balanced *)
+Theorem req_ledger_balanced : forall fx, ReqModel.fx_clone fx = true ->
+  ledger_ok (VReq.view fx) (ReqModel.req_step fx) ReqModel.req_init OwnReq.req_ok OwnReq.req_close_script.
+Proof. exact req_ledger_ok. Qed.
+Print Assumptions req_ledger_balanced.
+Theorem req_clone_consts_match : C04_REQ_CLONE_FIXED = true.
+Proof. reflexivity. Qed.
+Print Assumptions req_clone_consts_match.
+(* the policy of the tree as pinned (keyed on the CURRENT value of the option): the ledger is violated --
+   RESENDTIME infinite at send time, finite before the reply: the request is freed although it was handed
+   to the transport un-cloned (witness w_uaf of Proto/ReqProofs.v) *)
+Theorem req_clone_policy_ledger_refuted :
+  exists ops, replay_run (VReq.view ReqProofs.fx_pinned) (ReqModel.req_step ReqProofs.fx_pinned) ls_init ReqModel.req_init ops = None.
+Proof. exact OwnReq.req_law_refuted_pinned. Qed.
+Print Assumptions req_clone_policy_ledger_refuted.
 
 (* cooked REP and RESPONDENT: for the source with the repair "a send while the context's previous reply
    still waits for its pipe is refused" (rep.c f74acd0, respond.c 08762d5; flags read from the source) ... *)
